@@ -26,6 +26,7 @@ import SeedProofs.Lemmas.C09Tok
 import SeedProofs.Lemmas.C09Raw
 import SeedProofs.Lemmas.C09Int
 import SeedProofs.Lemmas.LexRT
+import SeedProofs.Lemmas.C09StrBoundary
 namespace Seed.C09
 open Seed
 
@@ -690,3 +691,16 @@ example : (lexAll (renderTok (.Ident c!"while"))).1.map Span.tok = [.While] ∧
 example : (lexAll c!"-5").1.map Span.tok = [.Sub, .IntLiteral 5] := by decide
 
 end Seed.C09
+
+/-! ### the end of a text whose last token is a string literal (third session; `Lemmas/C09StrBoundary.lean`)
+
+The boundary theorems above exclude, at the END of the text, a last token that is a string literal.  The exact condition is
+`¬ Unterminated pre` (the text does not end inside a literal that is still open — the lexer, like `next_str_literal`, returns
+such a literal as a token): `layout_invariance_at_boundary_term`, `newline_is_semicolon_at_end` hold under it,
+`not_unterminated_of_last_not_str` shows the old hypothesis implies it, `boundary_not_unterminated` that it always holds
+when something follows the boundary, and `layout_at_end_iff` / `unterminated_layout_matters` that it cannot be weakened
+(appended layout is invisible at the end of `pre` if and only if `pre` is not unterminated).  Inside an open literal appended
+text is literal text: `open_literal_swallows`, with the outcome per state of the string machine; a literal that was rejected
+stays rejected with the same error whatever is appended (`str_error_stable`). -/
+-- audit: Seed.C09.layout_invariance_at_boundary_term Seed.C09.layout_invariance_at_boundary_term_lexAll Seed.C09.newline_is_semicolon_at_end Seed.C09.boundary_not_unterminated Seed.C09.not_unterminated_of_last_not_str Seed.C09.unterminated_iff Seed.C09.unterminated_layout_matters Seed.C09.layout_at_end_iff
+-- audit: Seed.C09.nextToken_closed_local Seed.C09.open_literal_is_a_token Seed.C09.open_literal_swallows Seed.C09.open_none_plain Seed.C09.open_escape_fails Seed.C09.open_hex_fails Seed.C09.open_interp_start_fails Seed.C09.str_error_stable
